@@ -383,6 +383,10 @@ func (resp *Resp) next() error {
 			}
 
 			hAuth := h.getAuth(req.Repository)
+			if u.Scheme != "https" && h.config.TLS != config.TLSDisabled {
+				// never send credentials in clear text to a host configured for TLS
+				hAuth = nil
+			}
 			if hAuth != nil {
 				// include docker generated scope to emulate docker clients
 				if req.Repository != "" {
@@ -810,11 +814,14 @@ func (ch *clientHost) checkRedirect(repo string, orig func(req *http.Request, vi
 		if len(via) >= 10 {
 			return errors.New("stopped after 10 redirects")
 		}
-		// add auth headers if appropriate for the target host
-		hAuth := ch.getAuth(repo)
-		err := hAuth.UpdateRequest(req)
-		if err != nil {
-			return err
+		// add auth headers if appropriate for the target host,
+		// but never in clear text when the host is configured for TLS
+		if req.URL.Scheme == "https" || ch.config.TLS == config.TLSDisabled {
+			hAuth := ch.getAuth(repo)
+			err := hAuth.UpdateRequest(req)
+			if err != nil {
+				return err
+			}
 		}
 		// wrap original redirect check
 		if orig != nil {
